@@ -31,6 +31,12 @@ CHECKS = {
    note="Trusted: hook placement, goroutine-id attribution of pool hooks to user connections, TLC. The pool channel is lock-free, so the trace specification accepts the re-orderings between a channel operation and its (later) log entry; FIFO order inside the pool is not claimed. Direct tcp accept path only.",
    technique="TLA+ spec FrpsWorkPool model-checked with TLC + trace validation of real frps executions (Trace_FrpsWorkPool)",
    design="4 (C11), 3.3"),
+ "C13": dict(
+   level="model_checking",
+   text="TLC exhaustively checks FrpsGroups (controller lookup-or-create and group mutation as two critical sections, key / parameter checks, last leave closing channel + endpoint and removing the group; 3 members, 2 keys, 2 parameters: 0.47M states quick / 4.5M thorough) against NoPanic, JoinNeedsKeyAndParams, MembersAreJoined, PopulatedIsServed, EndpointIffMembers, Recreatable, AtMostOneOpen; real tcp, http and tcpmux groups on a real frps are driven through seeded join / leave histories with traffic and with joins parked between lookup and mutation while the last member leaves; every recorded execution is validated against Trace_FrpsGroups (join replies, endpoint reachability, which member served each connection, http rotation).",
+   note="Trusted: hook placement under the group / controller locks, goroutine-id attribution of group hooks to proxies, TLC. One group name per history; tcpmux groups without traffic probes.",
+   technique="TLA+ spec FrpsGroups model-checked with TLC + trace validation of real frps executions (Trace_FrpsGroups)",
+   design="4 (C13), 3.4"),
 }
 
 hooks_commits = subprocess.run("git -C /repo log --format=%h --grep='^verif:' --reverse", shell=True, capture_output=True, text=True).stdout.split()
